@@ -1,4 +1,5 @@
 import PkLA.Lmi
+import PkLA.DmdcLmi
 import Pk.Parse
 /-! Line-protocol driver for the Mathlib `Matrix` models of the LMI blocks, evaluated over ℚ.
 Run with `lake env lean --run DriverLA.lean` (an executable importing Mathlib cannot be linked here).
@@ -75,6 +76,15 @@ def dispatchLA : P String := do
     let Aw ← pM b b; let Bw ← pM b d; let Cw ← pM c b; let Dw ← pM c d
     pure ("ok " ++ dump (preA Am Aw Bm Cw) ++ " | " ++ dump (preB Bw Bm Dw) ++ " | "
       ++ dump (preC Cm Cw Dm) ++ " | " ++ dump (preD Dm Dw))
+  | "dmdc" => do
+    -- LmiDmdc._create_base_problem: dims r_hat, r_tld, p_theta, p_upsilon, q
+    let rh ← pNat; let rt ← pNat; let pt ← pNat; let pu ← pNat; let q ← pNat
+    let W ← pM rh rh; let Uh1 ← pM rh rh; let Uh2 ← pM rh pu
+    let Qh ← pM pt rh; let Qt1 ← pM pt rt; let Qt2 ← pM pu rt
+    let St ← pM rt rt; let Str ← pM rt rt; let Sh ← pM rh rh
+    let Zt ← pM q rt; let Zh ← pM q rh
+    let Qb := dmdcQbar Qh (fromRows Qt1 Qt2)
+    pure ("ok " ++ dump (dmdcLmi W (Sh * Sh) (fromCols Uh1 Uh2) (dmdcCross Qb St Zt Zh Sh) (Qb * Str)))
   | _ => throw s!"bad command {cmd}"
 
 def handleLA (line : String) : String :=
